@@ -325,6 +325,10 @@ def dispatch(
             # Let extract_selector consume its own tokens
             # Note: must materialize generator immediately so tokens are consumed now
             peers = list(extract_selector(tokeniser, reactor, service))
+            if not peers:
+                # a selector which matches nobody must not fall back to "no selector given",
+                # which the callers read as every peer
+                raise NoMatchingPeers(f'no peer matches the selector before: {tokeniser.peek()}')
             node = node[SELECTOR_KEY]
             # Don't consume again - extract_selector already did
             if callable(node):
